@@ -36,6 +36,9 @@ Proof.
   rewrite IH by lia. destruct ops as [|o2 ops]; cbn [length]; lia.
 Qed.
 
+Lemma filter_len_le {A} (f : A -> bool) (l : list A) : (length (filter f l) <= length l)%nat.
+Proof. induction l as [|x l IH]; cbn [filter length]; [lia|]. destruct (f x); cbn [length]; lia. Qed.
+
 Lemma filter_all_true {A} (f : A -> bool) (l : list A) :
   (forall x, In x l -> f x = true) -> filter f l = l.
 Proof.
@@ -127,6 +130,137 @@ Section ConcDurable.
     split; [exact Kn|]. split; [exact R1|]. split; [exact R2|]. split; [exact R3|].
     rewrite (KX wlog_versions n Hn). unfold logged. rewrite map_length. lia.
   Qed.
+
+  (* C03 for concurrent use: a kill at ANY position n of ANY schedule.  The disk then holds the
+     records of the write log up to n (the WLockW step appends and applies in one critical
+     section; nothing else touches the log) and the blobs g_cas.  Recovery replays them into the
+     key map of position n; every recovered key has its blob, complete, on disk; every writing call
+     that had returned before the kill is in the replayed log, each call at most once
+     (ConcLin.wlog_key_unique), and every entry of the log is the write of a call that was taken
+     before the kill (ConcLin.wlog_entry_call): acknowledged operations survive, in-flight ones
+     are all-or-nothing, nothing else appears. *)
+  Theorem C03_concurrent_kill_any_position n : (n <= NN sched)%nat ->
+    Forall (op_good cfg) (logged n) ->
+    exists st',
+      replay_records cfg 0 (records n) empty_istate 0 0
+        = Ok (st', N.of_nat (length (logged n)), N.of_nat (length (logged n))) /\
+      km st' = km (g_idx (stN n)) /\
+      (forall k it, sm_get cmp (km st') k = Some it ->
+         exists c, sm_get lex_cmp (g_cas (stN n)) (ihash it) = Some c /\ H c = ihash it /\ len c = isize it) /\
+      (forall t ts j c r,
+         tst H cmp (c_n cfg) bad ckbad thr0 cas0 sched n t = Some ts ->
+         nth_error (prog thr0 cas0 t) j = Some c -> nth_error (t_res ts) j = Some r ->
+         writes c r = true -> exists p o, In (mkWl p t j o) (wlogN n)).
+  Proof.
+    intros Hn Good.
+    destruct (C02_concurrent_log_replays n Hn Good) as (st' & E & K & _).
+    exists st'. split; [exact E|]. split; [exact K|]. split.
+    - intros k it G. rewrite K in G.
+      assert (Rc : reachable H cmp (c_n cfg) bad ckbad thr0 cas0 (stN n)) by (eexists; reflexivity).
+      exact (C04_no_dangling H cmp (key_cmp_refl _) (key_cmp_eq _) (key_cmp_antisym _) (key_cmp_trans _)
+               (c_n cfg) bad ckbad thr0 thr0_nodup cas0 cas0_sorted cas0_named NoCollideC _ Rc k it G).
+    - intros t ts j c r Ht Hc Hr W.
+      destruct (KX C05_calls_linearizable n t ts j c r Hn Ht Hc Hr)
+        as (s & e & q & _ & _ & _ & _ & _ & _ & _ & L).
+      destruct (L W) as (p & o & _ & I). exists p, o. exact I.
+  Qed.
+
+  (* ---------------------------------------------------------------------------------- *)
+  (* [Forall op_good (logged n)] from hypotheses on the PROGRAMS: every key that is put is
+     accepted by the key type and fits a u32 length, every content fits a u64 length, and the
+     store never holds 2^32 keys *)
+  Definition key_good (k : bytes) : Prop := key_fits k /\ key_valid (c_kt cfg) k = true.
+  Hypothesis prog_good : forall t k x, In (KPut k x) (prog thr0 cas0 t) -> key_good k /\ len x < 2 ^ 64.
+
+  Lemma In_fold_del (ks : list bytes) : forall (m : smap item) e,
+    In e (fold_left (fun m k => sm_del cmp m k) ks m) -> In e m.
+  Proof.
+    induction ks as [|k ks IH]; intros m e I; [exact I|]. cbn [fold_left] in I.
+    apply IH in I. exact (In_del cmp (key_cmp_refl _) (key_cmp_eq _) (key_cmp_antisym _) (key_cmp_trans _) _ _ _ I).
+  Qed.
+
+  Lemma fold_keys (ops : list rawop) : forall (m : smap item) e,
+    In e (fold_left (ConcLin.kstep cmp) ops m) ->
+    In e m \/ exists h sz, In (RPut (fst e) h sz) ops.
+  Proof.
+    induction ops as [|o ops IH]; intros m e I; [left; exact I|]. cbn [fold_left] in I.
+    destruct (IH _ _ I) as [I1|(h & sz & I1)].
+    - destruct o as [k h sz|ks]; cbn [ConcLin.kstep] in I1.
+      + apply (In_ins cmp (key_cmp_refl _) (key_cmp_eq _) (key_cmp_antisym _) (key_cmp_trans _)) in I1. destruct I1 as [->|I1]; [|left; exact I1].
+        right. exists h, sz. left. reflexivity.
+      + left. eapply In_fold_del. exact I1.
+    - right. exists h, sz. right. exact I1.
+  Qed.
+
+  Lemma put_entries_good n : (n <= NN sched)%nat ->
+    forall k h sz, In (RPut k h sz) (logged n) -> key_good k /\ hash_ok h /\ sz < 2 ^ 64.
+  Proof.
+    intros Hn k h sz I. unfold logged in I. apply in_map_iff in I. destruct I as (e & Eo & Ie).
+    destruct (KX wlog_entry_call n e Hn Ie) as (c & s & Hc & _ & _ & Op & _).
+    rewrite Eo in Op. cbn [op_of_call] in Op. destruct Op as (x & -> & -> & ->).
+    apply nth_error_In in Hc. destruct (prog_good _ _ _ Hc) as [G L].
+    split; [exact G|]. split; [apply H_len|exact L].
+  Qed.
+
+  Lemma kmap_keys_good q : (q <= NN sched)%nat ->
+    forall e, In e (kmap H cmp (c_n cfg) bad ckbad thr0 cas0 sched q) -> key_good (fst e).
+  Proof.
+    intros Hq e I. rewrite (KX C05_km_is_fold_of_writes q Hq) in I.
+    destruct (fold_keys _ _ _ I) as [[]|(h & sz & I1)].
+    exact (proj1 (put_entries_good q Hq _ _ _ I1)).
+  Qed.
+
+  Theorem logged_good n : (n <= NN sched)%nat ->
+    (forall q, (q <= n)%nat -> N.of_nat (length (kmap H cmp (c_n cfg) bad ckbad thr0 cas0 sched q)) < 2 ^ 32) ->
+    Forall (op_good cfg) (logged n).
+  Proof.
+    intros Hn Small. apply Forall_forall. intros o Io.
+    destruct o as [k h sz|ks].
+    - destruct (put_entries_good n Hn _ _ _ Io) as ((F & V) & Hh & L).
+      split; [split; [exact F|split; [exact Hh|exact L]]|].
+      constructor; [exact V|constructor].
+    - unfold logged in Io. apply in_map_iff in Io. destruct Io as (e & Eo & Ie).
+      destruct (KX wlog_entry_call n e Hn Ie) as (c & s & _ & _ & _ & Op & _).
+      rewrite Eo in Op. cbn [op_of_call] in Op. destruct Op as (q & r & Bq & _ & Sc).
+      pose proof (wlog_lt _ _ _ _ _ _ _ _ _ _ Ie) as Lp. cbn beta in Lp.
+      assert (Hq : (q <= n)%nat) by lia. assert (Hq' : (q <= NN sched)%nat) by lia.
+      assert (Keys : forall k, In k ks -> exists it, In (k, it) (kmap H cmp (c_n cfg) bad ckbad thr0 cas0 sched q)).
+      { destruct Sc as [(k0 & _ & -> & _ & G)|(lo & hi & _ & -> & _ & _)].
+        - intros k [<-|[]]. destruct (sm_get cmp (kmap H cmp (c_n cfg) bad ckbad thr0 cas0 sched q) k0) as [it|] eqn:E;
+            [|exfalso; apply G; reflexivity].
+          exists it. revert E. generalize (kmap H cmp (c_n cfg) bad ckbad thr0 cas0 sched q). intros m.
+          induction m as [|[k1 v1] m IH]; cbn [sm_get]; [discriminate|].
+          destruct (cmp k0 k1) eqn:C; try discriminate.
+          + intros E. injection E as <-. apply (key_cmp_eq (c_kt cfg)) in C. subst k1. left. reflexivity.
+          + intros E. right. apply IH, E.
+        - intros k Ik. unfold keys_in in Ik. apply in_map_iff in Ik. destruct Ik as ([k1 it] & <- & If).
+          apply filter_In in If. exists it. exact (proj1 If). }
+      assert (Len : (length ks <= length (kmap H cmp (c_n cfg) bad ckbad thr0 cas0 sched q))%nat).
+      { destruct Sc as [(k0 & _ & -> & _ & G)|(lo & hi & _ & -> & _ & _)].
+        - destruct (Keys k0 (or_introl eq_refl)) as (it & Iit).
+          destruct (kmap H cmp (c_n cfg) bad ckbad thr0 cas0 sched q); [destruct Iit|cbn [length]; lia].
+        - unfold keys_in. rewrite map_length. apply filter_len_le. }
+      pose proof (Small q Hq) as Sm.
+      split.
+      + split; [lia|]. apply Forall_forall. intros k Ik. destruct (Keys k Ik) as (it & Iit).
+        exact (proj1 (kmap_keys_good q Hq' _ Iit)).
+      + apply Forall_forall. intros k Ik. destruct (Keys k Ik) as (it & Iit).
+        exact (proj2 (kmap_keys_good q Hq' _ Iit)).
+  Qed.
+
+  (* the two theorems above, from hypotheses on the programs alone *)
+  Corollary C03_concurrent_kill_any_position_programs n : (n <= NN sched)%nat ->
+    (forall q, (q <= n)%nat -> N.of_nat (length (kmap H cmp (c_n cfg) bad ckbad thr0 cas0 sched q)) < 2 ^ 32) ->
+    exists st',
+      replay_records cfg 0 (records n) empty_istate 0 0
+        = Ok (st', N.of_nat (length (logged n)), N.of_nat (length (logged n))) /\
+      km st' = km (g_idx (stN n)) /\ rc st' = rc (g_idx (stN n)) /\
+      g_nextv (stN n) = N.of_nat (length (logged n)) + 1.
+  Proof.
+    intros Hn Small.
+    destruct (C02_concurrent_log_replays n Hn (logged_good n Hn Small)) as (st' & E & K & R & _ & _ & V).
+    exists st'. repeat split; assumption.
+  Qed.
 End ConcDurable.
 
 (* ---- the hypotheses are satisfiable: the reader/writer program of ConcLin.v (two overwriting
@@ -157,4 +291,56 @@ Proof.
   - rewrite logged_ex. repeat constructor; cbn; try lia; reflexivity.
   - exists st'. rewrite logged_ex in E, V. split; [exact E|]. split; [|exact V].
     rewrite K. vm_compute. reflexivity.
+Qed.
+
+(* the program-level hypotheses are satisfiable as well *)
+Example progR_good : forall t k x, In (KPut k x) (prog progR [] t) -> key_good cfg_ex k /\ len x < 2 ^ 64.
+Proof.
+  intros t k x I. destruct t as [|[|[|t]]]; vm_compute in I;
+    repeat match goal with
+           | Hx : _ \/ _ |- _ => destruct Hx
+           | Hx : False |- _ => destruct Hx
+           | Hx : KPut _ _ = KPut _ _ |- _ => injection Hx as <- <-
+           | Hx : _ = KPut _ _ |- _ => discriminate Hx
+           end;
+    (split; [split; [unfold key_fits, len; cbn; lia|reflexivity]|unfold len; cbn; lia]).
+Qed.
+
+Example C03_conc_programs_ex :
+  exists st',
+    replay_records cfg_ex 0 (records toyH cfg_ex nobad false progR [] schedR1 (NN schedR1)) empty_istate 0 0
+      = Ok (st', 2, 2).
+Proof.
+  destruct (C03_concurrent_kill_any_position_programs toyH toyH_len toyH_byte cfg_ex eq_refl nobad false progR
+              progR_nodup [] ltac:(constructor) ltac:(intros ? ? []) progR_nocollide schedR1 progR_good
+              (NN schedR1) (le_n _)) as (st' & E & _).
+  - intros q Hq. unfold NN in Hq. cbn [length schedR1] in Hq.
+    assert (B : forall m : smap item, (length m <= 1)%nat -> N.of_nat (length m) < 2 ^ 32).
+    { intros m L. change (2 ^ 32) with 4294967296. lia. }
+    apply B. change (c_kt cfg_ex) with KBytes. change (c_n cfg_ex) with 100.
+    rewrite (C05_km_is_fold_of_writes toyH (key_cmp KBytes) (key_cmp_refl _) (key_cmp_eq _) (key_cmp_antisym _)
+               (key_cmp_trans _) 100 nobad false progR progR_nodup [] ltac:(constructor) ltac:(intros ? ? [])
+               progR_nocollide schedR1 q Hq).
+    (* both logged operations write the single key [1] *)
+    assert (Sub : forall e, In e (wlog toyH (key_cmp KBytes) 100 nobad false progR [] schedR1 q) ->
+                  In e (wlog toyH (key_cmp KBytes) 100 nobad false progR [] schedR1 (NN schedR1))).
+    { intros e. apply wlog_mono. exact Hq. }
+    assert (Ops : forall o, In o (map wl_o (wlog toyH (key_cmp KBytes) 100 nobad false progR [] schedR1 q)) ->
+                  exists h sz, o = RPut [1] h sz).
+    { intros o Io. apply in_map_iff in Io. destruct Io as (e & <- & Ie). apply Sub in Ie.
+      assert (Io : In (wl_o e) (logged toyH cfg_ex nobad false progR [] schedR1 (NN schedR1))).
+      { unfold logged. apply in_map. exact Ie. }
+      rewrite logged_ex in Io. destruct Io as [<-|[<-|[]]]; eexists; eexists; reflexivity. }
+    revert Ops. generalize (map wl_o (wlog toyH (key_cmp KBytes) 100 nobad false progR [] schedR1 q)).
+    intros ops Ops.
+    assert (G : forall m : smap item, (m = [] \/ exists it, m = [([1], it)]) ->
+                (length (fold_left (ConcLin.kstep (key_cmp KBytes)) ops m) <= 1)%nat).
+    { induction ops as [|o ops IH]; intros m Hm.
+      - cbn [fold_left]. destruct Hm as [->|(it & ->)]; cbn; lia.
+      - cbn [fold_left]. apply IH.
+        + intros o' Io'. apply Ops. right. exact Io'.
+        + destruct (Ops o (or_introl eq_refl)) as (h & sz & ->). cbn [ConcLin.kstep].
+          destruct Hm as [->|(it & ->)]; right; eexists; vm_compute; reflexivity. }
+    apply G. left. reflexivity.
+  - rewrite logged_ex in E. exists st'. exact E.
 Qed.
